@@ -29,6 +29,7 @@ type crashJob struct {
 	ignore   string // table whose CREATE was in flight at the crash: not judged
 	noSecond bool   // skip the second recovery (C04 judges start-up and contents only)
 	real     bool   // produced by a real SIGKILL
+	db       string // the database the history ran in, as written in SQL (default d1)
 	// results
 	matched   int   // index of the matching candidate, -1 none
 	failed    bool  // recovery stage failed
@@ -48,19 +49,26 @@ func errClass(s string) string {
 	return s
 }
 
+func (j *crashJob) use() proto.Text {
+	if j.db == "" {
+		return "USE d1"
+	}
+	return proto.Text("USE " + j.db)
+}
+
 func stageA(j *crashJob) block {
 	var s script
 	s.add(proto.Op{K: "chdir", Dir: j.dir})
 	s.cfg(true, 0)
 	s.k("init")    // 2
 	s.k("session") // 3
-	s.sql("USE d1")
+	s.add(proto.Op{K: "sql", SQL: j.use()})
 	s.k("dump") // 5
 	if !j.noSecond {
 		s.k("session")
 		s.k("init") // 7
 		s.k("session")
-		s.sql("USE d1")
+		s.add(proto.Op{K: "sql", SQL: j.use()})
 		s.k("dump") // 10
 	}
 	return block{ops: s.ops}
@@ -192,7 +200,7 @@ func verifyCrashJobs(c *core.Ctx, prop, drv, cwd string, jobs []*crashJob) {
 		add(proto.Op{K: "cfg", N: 1}, contMeta{kind: "other"})
 		add(proto.Op{K: "init"}, contMeta{kind: "init"})
 		add(proto.Op{K: "session"}, contMeta{kind: "other"})
-		add(proto.Op{K: "sql", SQL: "USE d1"}, contMeta{kind: "use"})
+		add(proto.Op{K: "sql", SQL: j.use()}, contMeta{kind: "use"})
 		cycles := j.chain + 1
 		for cy := 0; cy < cycles; cy++ {
 			for k := 0; k < j.cont; k++ {
@@ -208,7 +216,7 @@ func verifyCrashJobs(c *core.Ctx, prop, drv, cwd string, jobs []*crashJob) {
 				add(proto.Op{K: "session"}, contMeta{kind: "other"})
 				add(proto.Op{K: "init"}, contMeta{kind: "init"})
 				add(proto.Op{K: "session"}, contMeta{kind: "other"})
-				add(proto.Op{K: "sql", SQL: "USE d1"}, contMeta{kind: "use"})
+				add(proto.Op{K: "sql", SQL: j.use()}, contMeta{kind: "use"})
 				add(proto.Op{K: "dump"}, contMeta{kind: "dump"})
 			}
 		}
